@@ -219,7 +219,7 @@ func c01R2(h H) {
 
 func c01R3(h H) {
 	r := h.r
-	r.Rule("R3", "specificity order: in matchHost the lookup keyed by the unmodified host precedes every lookup keyed by a strings.Join candidate, the wildcard ladder ascends by 1 storing \"*\" at the loop index, and a hit returns at once; in Match the request host is tried before fallback hosts, which are tried only while nothing matched", 5)
+	r.Rule("R3", "specificity order: in matchHost the lookup keyed by the unmodified host precedes every lookup keyed by a strings.Join candidate, the wildcard ladder ascends by 1 storing \"*\" at the loop index, every candidate keeps all labels, and a hit returns at once; in Match the request host is tried before fallback hosts, which are tried only while nothing matched", 6)
 	fn := h.fn("R3", hs, "(*vhostTrie).matchHost")
 	if fn != nil {
 		var exact, cand []*ssa.Lookup
@@ -230,8 +230,20 @@ func c01R3(h H) {
 			}
 			if _, isParam := l.Index.(*ssa.Parameter); isParam {
 				exact = append(exact, l)
-			} else if derives(l.Index, func(v ssa.Value) bool { return isResultOf(v, 0, "strings.Join") }, flowOpts{}) {
+			} else if jc, ok := l.Index.(*ssa.Call); ok && calleeName(&jc.Call) == "strings.Join" {
 				cand = append(cand, l)
+				// the candidate is built from ALL labels of the host: the Split result itself, not a sub-slice
+				whole := isResultOf(jc.Call.Args[0], 0, "strings.Split")
+				sep, _ := constString(jc.Call.Args[1])
+				var splitSep string
+				if sc, ok := jc.Call.Args[0].(*ssa.Call); ok && len(sc.Call.Args) == 2 {
+					splitSep, _ = constString(sc.Call.Args[1])
+					if _, isParam := sc.Call.Args[0].(*ssa.Parameter); !isParam {
+						whole = false
+					}
+				}
+				r.Check(whole && sep == "." && splitSep == ".", "R3", "httpserver.(*vhostTrie).matchHost/candidate-keeps-all-labels", l.Pos(),
+					"each wildcard candidate is strings.Join of the complete label list of the given host (dropping labels would let one '*' stand for several)", describe(l.Index))
 			} else {
 				r.Fail("R3", "httpserver.(*vhostTrie).matchHost/lookup-key", l.Pos(), "host-level lookup with a key that is neither the given host nor a wildcard candidate built by strings.Join", describe(l.Index))
 			}
